@@ -225,8 +225,9 @@ def group(ctx, rng, P):
             hl = rng.choice([80, 80, 80, 0, 16, 200])
             header = rng.randbytes(hl)
             mips = []
-            for m in range(rng.randint(1, 5)):
-                d, ck = content(rng, max(1, pick_len(rng, P["maxlen"] // 4)))
+            nm = rng.randint(1, 5) if rng.random() < 0.9 else rng.choice([13, 14, 15, 20])
+            for m in range(nm):
+                d, ck = content(rng, max(1, pick_len(rng, P["maxlen"] // 4))) if nm <= 5 else (rng.randbytes(rng.choice([4, 16, 64, 200])), "tex")
                 mips.append(bounded_split(rng, d, pick_sizes(rng), 120))
             # every mip carries its own offset: mips after the first may be stored in any order, with unused room between them
             mip_order, mip_gap = None, 0
@@ -259,14 +260,16 @@ def group(ctx, rng, P):
                     lods.append((b"", b""))
             sizes = pick_sizes(rng)
             version = rng.choice([0x1000005, 0x1000006, rng.getrandbits(32)])
-            hdrvals = dict(version=version, vdecl=rng.randrange(1, 40), materials=rng.randrange(0, 9), lod_count=nl, streaming=rng.random() < 0.5, edge=False)
+            # the LOD-count byte is a header value of its own: it may understate (or overstate) the LOD slots that carry sections
+            nlb = nl if rng.random() < 0.7 else rng.choice([0, 1, 2, 3, 7, 255])
+            hdrvals = dict(version=version, vdecl=rng.randrange(1, 40), materials=rng.randrange(0, 9), lod_count=nlb, streaming=rng.random() < 0.5, edge=False)
             # every section carries its own offset: the block runs may be laid out in any order, with unused room between them
             storage, sec_gap = None, 0
             if rng.random() < 0.3:
                 storage = ["stack", "runtime"] + ["%s%d" % (a, i) for i in range(3) for a in "vi"]
                 rng.shuffle(storage)
                 sec_gap = rng.choice([0, 1, 2])
-            entry, sections, used = sq.model_entry(version, stack, runtime, lods, hdrvals["vdecl"], hdrvals["materials"], nl, hdrvals["streaming"], False,
+            entry, sections, used = sq.model_entry(version, stack, runtime, lods, hdrvals["vdecl"], hdrvals["materials"], nlb, hdrvals["streaming"], False,
                                                    lambda d: bounded_split(rng, d, sizes, 150), sf, storage=storage, sec_gap=sec_gap, extra_header=rng.choice([0, 0, 0, 1, 2]))
             exp = dict(kind=kind, sections=sections, hdr=hdrvals)
             meta = dict(kind=kind, content="mdl", length=sum(len(s) for s in sections.values()), blocks=len(used), lods=nl, storage="permuted" if storage else "in-order")
